@@ -839,10 +839,12 @@ pub fn c12(spec: &WorldSpec, ex: &Exec) -> Option<Viol> {
     let np = ex.probes.len();
     let ns = ex.subs.len();
     let mut attached = vec![false; np];
+    let mut disposed_at: Vec<Option<usize>> = vec![None; np];
     let mut sub_alive = vec![false; ns]; // subscribed (even before greeting) and not over
     let mut found = None;
-    // open attach frames: (probe, attached-empty at start, new subs inside)
-    let mut attach: Option<(u8, bool, u32)> = None;
+    // open attach frames: (frame start or usize::MAX for the top-level one, probe, attached-empty at
+    // start, new subs inside)
+    let mut attach: Vec<(usize, u8, bool, u32)> = vec![];
     // open source sends: (start, msg, attached snapshot, received)
     let mut send_open: Vec<(usize, M, Vec<u8>, Vec<u8>)> = vec![];
     // open detach frames: (start, probe, expect upstream stop, stops inside)
@@ -853,8 +855,8 @@ pub fn c12(spec: &WorldSpec, ex: &Exec) -> Option<Viol> {
         }
         match ev {
             Ev::Top(e) => {
-                // close the previous attach frame
-                if let Some((p, empty, newsubs)) = attach.take() {
+                // close the previous top-level attach frame
+                while let Some((_, p, empty, newsubs)) = attach.pop() {
                     if let Some(v) = check_attach(spec, i, p, empty, newsubs) {
                         found = Some(v);
                         return;
@@ -862,8 +864,13 @@ pub fn c12(spec: &WorldSpec, ex: &Exec) -> Option<Viol> {
                 }
                 if let EvId::Subscribe(p) = e {
                     let empty = !attached.iter().any(|a| *a);
-                    attach = Some((*p, empty, 0));
+                    attach.push((usize::MAX, *p, empty, 0));
                 }
+            },
+            // a sink attaching from inside a handler (nested subscription)
+            Ev::Send(Actor::Probe(q), M::Hs) => {
+                let empty = !attached.iter().any(|a| *a);
+                attach.push((i, *q, empty, 0));
             },
             Ev::In(Actor::Sub(s), m) => {
                 let su = *s as usize;
@@ -874,11 +881,22 @@ pub fn c12(spec: &WorldSpec, ex: &Exec) -> Option<Viol> {
                             return;
                         }
                         sub_alive[su] = true;
-                        match attach.as_mut() {
-                            Some(a) if stack.is_empty() => a.2 += 1,
-                            _ => {
-                                found = Some(viol(spec, "upstream-subscribed-outside-attach", i, "upstream was subscribed outside of a sink attaching".into()));
+                        // directly inside the innermost attach (top-level: empty stack; nested: the
+                        // innermost send frame is that attach)
+                        let inner = innermost_send(stack).map(|f| f.start);
+                        let ok = match (attach.last_mut(), inner) {
+                            (Some(a), None) if a.0 == usize::MAX => {
+                                a.3 += 1;
+                                true
                             },
+                            (Some(a), Some(st)) if a.0 == st => {
+                                a.3 += 1;
+                                true
+                            },
+                            _ => false,
+                        };
+                        if !ok {
+                            found = Some(viol(spec, "upstream-subscribed-outside-attach", i, "upstream was subscribed outside of a sink attaching".into()));
                         }
                     },
                     M::Term | M::Err(_) => {
@@ -904,6 +922,12 @@ pub fn c12(spec: &WorldSpec, ex: &Exec) -> Option<Viol> {
                 match m {
                     M::Hs => attached[pu] = true,
                     M::Data(_) | M::Term | M::Err(_) => {
+                        // the fan-out goes to the sinks attached at the moment of each delivery: a sink
+                        // that detached (even from inside this very fan-out) is not one of them
+                        if let Some(d) = disposed_at[pu] {
+                            found = Some(viol(spec, "delivery-to-detached-sink", i, format!("probe {p} detached at #{d}, yet it was delivered {m:?}")));
+                            return;
+                        }
                         match innermost_puppet_send(stack) {
                             Some(fr) if fr.msg == *m => {
                                 if let Some(so) = send_open.iter_mut().find(|x| x.0 == fr.start) {
@@ -913,7 +937,7 @@ pub fn c12(spec: &WorldSpec, ex: &Exec) -> Option<Viol> {
                             _ => {
                                 found = Some(viol(spec, "delivery-outside-source-emission", i, format!("probe {p} received {m:?} outside of the source's delivery of it")));
                                 return;
-                            },
+                            }
                         }
                         if m.is_terminal() {
                             attached[pu] = false;
@@ -926,6 +950,7 @@ pub fn c12(spec: &WorldSpec, ex: &Exec) -> Option<Viol> {
                 let pu = *p as usize;
                 let was = attached[pu];
                 attached[pu] = false;
+                disposed_at[pu] = Some(i);
                 let empties = was && !attached.iter().any(|a| *a);
                 let upstream_alive = sub_alive.iter().any(|a| *a);
                 detach_open.push((i, *p, empties && upstream_alive, 0));
@@ -939,6 +964,11 @@ pub fn c12(spec: &WorldSpec, ex: &Exec) -> Option<Viol> {
                     } else if !expect && got != 0 {
                         found = Some(viol(spec, "upstream-disposed-while-sinks-attached", i, format!("probe {p} detached while other sinks were attached (or upstream was gone), yet upstream received {got} stop messages")));
                     }
+                } else if let Some(pos) = attach.iter().position(|a| a.0 == fr.start) {
+                    let (_, p, empty, newsubs) = attach.remove(pos);
+                    if let Some(v) = check_attach(spec, i, p, empty, newsubs) {
+                        found = Some(v);
+                    }
                 }
             },
             Ev::Send(Actor::Sub(s), m) => {
@@ -948,15 +978,30 @@ pub fn c12(spec: &WorldSpec, ex: &Exec) -> Option<Viol> {
                 }
                 if m.is_data() || m.is_terminal() {
                     let snap: Vec<u8> = (0..np as u8).filter(|p| attached[*p as usize]).collect();
+                    if m.is_terminal() {
+                        // the subscription is over: every sink attached to it is on its way out, a sink
+                        // attaching from now on (even from inside this last fan-out) starts afresh
+                        for p in &snap {
+                            attached[*p as usize] = false;
+                        }
+                    }
                     send_open.push((i, *m, snap, vec![]));
                 }
             },
             Ev::Ret(Actor::Sub(_)) => {
                 let Some(fr) = stack.last() else { return };
                 if let Some(pos) = send_open.iter().position(|x| x.0 == fr.start) {
-                    let (_, m, snap, mut got) = send_open.remove(pos);
+                    let (start, m, snap, mut got) = send_open.remove(pos);
                     got.sort();
-                    if got != snap {
+                    // every sink attached when the delivery began receives it exactly once, except
+                    // one that detached (was disposed) while the fan-out was in progress
+                    let extra: Vec<&u8> = got.iter().filter(|p| !snap.contains(p)).collect();
+                    let dup = got.windows(2).any(|w| w[0] == w[1]);
+                    let missing: Vec<&u8> = snap
+                        .iter()
+                        .filter(|p| !got.contains(p) && !disposed_at[**p as usize].map(|d| d > start).unwrap_or(false))
+                        .collect();
+                    if !extra.is_empty() || dup || !missing.is_empty() {
                         found = Some(viol(spec, "fan-out-not-exactly-once", i, format!("the source sent {m:?} while probes {snap:?} were attached; it was delivered to {got:?}")));
                     }
                 }
@@ -965,8 +1010,10 @@ pub fn c12(spec: &WorldSpec, ex: &Exec) -> Option<Viol> {
         }
     });
     if found.is_none() && ex.fault.is_none() && !ex.panicked {
-        if let Some((p, empty, newsubs)) = attach.take() {
-            found = check_attach(spec, ex.trace.len(), p, empty, newsubs);
+        while let Some((_, p, empty, newsubs)) = attach.pop() {
+            if found.is_none() {
+                found = check_attach(spec, ex.trace.len(), p, empty, newsubs);
+            }
         }
     }
     found
